@@ -737,6 +737,7 @@ fn random_constant(rng: &mut StdRng) -> Operation {
 struct Driver {
     rng: StdRng,
     w: World,
+    finalized: std::collections::HashSet<GH>,
 }
 
 impl Driver {
@@ -864,6 +865,38 @@ impl Driver {
         let nc = self.w.ctxs.len();
         let c = if self.rng.gen_range(0..10) < 8 { 0 } else { self.rng.gen_range(0..nc) };
         let nm = self.w.names[self.rng.gen_range(0..self.w.names.len())].clone();
+        // "progress" moves: drive the oldest unfinished graph (and finally the context) towards
+        // finalization so that calls between graphs and calls after finalization occur
+        if self.rng.gen_range(0..100) < 14 {
+            let open = (0..self.w.graphs[c].len()).find(|g| self.w.graphs[c][*g].get_output_node().is_err() || {
+                // finalized-ness is not public: a graph whose finalize() has not been requested yet is tracked here
+                !self.finalized.contains(&(c, *g))
+            });
+            match open {
+                Some(g) => {
+                    let gh = (c, g);
+                    if self.w.nodes[c][g].is_empty() {
+                        return Call::Add { gh, deps: vec![], gdeps: vec![], op: Operation::Input(random_valid_small(&mut self.rng)), with_type: None };
+                    } else if self.w.graphs[c][g].get_output_node().is_err() {
+                        let n = self.w.nodes[c][g].len() - 1;
+                        return Call::Out { gh, nh: (c, g, n), via_node: true };
+                    } else {
+                        self.finalized.insert(gh);
+                        return Call::GFin { gh };
+                    }
+                }
+                None => {
+                    if !self.w.graphs[c].is_empty() && self.rng.gen_bool(0.5) {
+                        if self.w.ctxs[c].get_main_graph().is_err() {
+                            let g = self.rng.gen_range(0..self.w.graphs[c].len());
+                            return Call::Main { c, gh: (c, g), via_graph: true };
+                        } else if self.rng.gen_bool(0.3) {
+                            return Call::CFin { c };
+                        }
+                    }
+                }
+            }
+        }
         loop {
             let r = self.rng.gen_range(0..100);
             let gh = self.pick_gh(c);
@@ -958,7 +991,7 @@ fn cmd_random(args: &[String]) {
         let mut rng = StdRng::seed_from_u64(seed.wrapping_mul(1000003).wrapping_add(h as u64));
         let nc = if h % 3 == 0 { 1 } else { 2 };
         let len = rng.gen_range(minlen..=maxlen);
-        let mut d = Driver { rng, w: World::new(nc, &names) };
+        let mut d = Driver { rng, w: World::new(nc, &names), finalized: Default::default() };
         // the second context gets a small finalized graph first so that foreign handles exist
         let p0 = project(&d.w);
         let mut prev = p0.to_string();
@@ -1000,8 +1033,651 @@ fn cmd_random(args: &[String]) {
     println!("{}", json!({"histories": nh, "calls": total}));
 }
 
+// ------------------------------------------------------------------------------------------- C12
+
+/// Independent decoder of the serialization format (mirror of the private SerializableContextBody):
+/// decides whether a payload has the shape of a serialized context.
+#[allow(dead_code)]
+#[derive(serde::Deserialize)]
+struct SNode {
+    node_dependencies: Vec<u64>,
+    graph_dependencies: Vec<u64>,
+    operation: Operation,
+}
+#[allow(dead_code)]
+#[derive(serde::Deserialize)]
+struct SGraph {
+    finalized: bool,
+    nodes: Vec<SNode>,
+    output_node: Option<u64>,
+}
+#[allow(dead_code)]
+#[derive(serde::Deserialize)]
+struct SCtx {
+    finalized: bool,
+    graphs: Vec<SGraph>,
+    main_graph: Option<u64>,
+    graphs_names: Vec<(u64, String)>,
+    nodes_names: Vec<((u64, u64), String)>,
+    nodes_annotations: Vec<((u64, u64), Vec<NodeAnnotation>)>,
+    graphs_annotations: Vec<(u64, Vec<GraphAnnotation>)>,
+}
+#[derive(serde::Deserialize)]
+struct SEnv {
+    version: u64,
+    data: String,
+}
+
+const UNIVERSE: [&str; 4] = ["a", "b", "c", "d"];
+
+fn clamp_ids(j: &mut Json) {
+    match j {
+        Json::Number(n) => {
+            if let Some(u) = n.as_u64() {
+                if u > 1_000_000 {
+                    *j = json!(1_000_000);
+                }
+            } else if n.as_i64().is_none() {
+                *j = json!(1_000_000);
+            }
+        }
+        Json::Array(a) => a.iter_mut().for_each(clamp_ids),
+        // (operation parameters such as array shapes are not ids)
+        Json::Object(o) => o.iter_mut().filter(|(k, _)| k.as_str() != "op").for_each(|(_, v)| clamp_ids(v)),
+        _ => {}
+    }
+}
+
+/// array dimensions the specification can weigh: small ones, or exactly the two designated huge types
+/// (TLC integers are 32 bit; sizes are abstracted to weights, see ContextAPI.tla)
+fn dims_ok(t: &Json) -> bool {
+    match t["k"].as_str().unwrap_or("") {
+        "a" => {
+            let sh: Vec<u64> = t["sh"].as_array().map(|a| a.iter().map(|x| x.as_u64().unwrap_or(u64::MAX)).collect()).unwrap_or_default();
+            sh.iter().all(|d| *d <= (1 << 20)) || (t["st"] == "i64" && (sh == vec![1 << 30, 1 << 30, 8] || sh == vec![1 << 30, 1 << 27]))
+        }
+        "t" | "n" => t["el"].as_array().map_or(true, |a| a.iter().all(dims_ok)),
+        "v" => t["n"].as_u64().map_or(false, |n| n <= (1 << 20)) && dims_ok(&t["of"]),
+        _ => true,
+    }
+}
+
+fn clamp_dims(t: &mut Json) {
+    match t {
+        Json::Number(n) => {
+            if n.as_u64().map_or(true, |u| u > i32::MAX as u64) && n.as_i64().map_or(true, |i| i > i32::MAX as i64 || i < i32::MIN as i64) {
+                *t = json!(i32::MAX);
+            }
+        }
+        Json::Array(a) => a.iter_mut().for_each(clamp_dims),
+        Json::Object(o) => o.values_mut().for_each(clamp_dims),
+        _ => {}
+    }
+}
+
+/// all ops modelled by the specification and all names inside the probe universe
+fn spec_can_predict(ser: &Json) -> bool {
+    let dims = ser["graphs"].as_array().map_or(true, |gs| {
+        gs.iter().all(|g| g["nodes"].as_array().map_or(true, |ns| ns.iter().all(|n| dims_ok(&n["op"]["t"]))))
+    });
+    if !dims {
+        return false;
+    }
+    let modelled = ["Input", "Add", "Subtract", "Multiply", "CreateTuple", "TupleGet", "Call"];
+    let ops_ok = ser["graphs"].as_array().map_or(true, |gs| {
+        gs.iter().all(|g| g["nodes"].as_array().map_or(true, |ns| ns.iter().all(|n| modelled.contains(&n["op"]["o"].as_str().unwrap_or("")))))
+    });
+    let names_ok = ["graphs_names", "nodes_names"].iter().all(|t| {
+        ser[*t].as_array().map_or(true, |es| es.iter().all(|e| UNIVERSE.contains(&e["nm"].as_str().unwrap_or(""))))
+    });
+    let ann_ok = ser["graphs_annotations"].as_array().map_or(true, |es| es.iter().all(|e| e["an"].as_array().map_or(true, |a| a.iter().all(|x| x != "?"))))
+        && ser["nodes_annotations"].as_array().map_or(true, |es| es.iter().all(|e| e["an"].as_array().map_or(true, |a| a.iter().all(|x| x != "?"))));
+    ops_ok && names_ok && ann_ok
+}
+
+/// What a text is, decided WITHOUT the library's Context decoder: envelope ok?, version, payload shape ok?,
+/// normalised serial form of the payload.
+fn classify_text(text: &str) -> Json {
+    let env: Option<SEnv> = serde_json::from_str(text).ok();
+    match env {
+        None => json!({"env_ok": false, "version": 0, "shape_ok": false, "cser": {}, "predictable": true}),
+        Some(e) => {
+            let shape: std::result::Result<SCtx, _> = catch(AssertUnwindSafe(|| serde_json::from_str::<SCtx>(&e.data))).unwrap_or_else(|_| {
+                // a panic inside the library's Operation/Value decoder: the payload is not decodable
+                serde_json::from_str::<SCtx>("0")
+            });
+            let version = e.version.min(1000);
+            match (shape, serde_json::from_str::<Json>(&e.data)) {
+                (Ok(_), Ok(inner)) => {
+                    let mut cser = ser_norm(&inner);
+                    clamp_ids(&mut cser);
+                    let p = spec_can_predict(&cser);
+                    clamp_dims(&mut cser);
+                    json!({"env_ok": true, "version": version, "shape_ok": true, "cser": cser, "predictable": p})
+                }
+                _ => json!({"env_ok": true, "version": version, "shape_ok": false, "cser": {}, "predictable": true}),
+            }
+        }
+    }
+}
+
+fn names_for(ctx_names: &[String]) -> Vec<String> {
+    let mut v: Vec<String> = UNIVERSE.iter().map(|s| s.to_string()).collect();
+    for n in ctx_names {
+        if !v.contains(n) {
+            v.push(n.clone());
+        }
+    }
+    v
+}
+
+fn names_in(inner: &Json) -> Vec<String> {
+    let mut v = vec![];
+    for t in ["graphs_names", "nodes_names"] {
+        if let Some(a) = inner[t].as_array() {
+            for e in a {
+                if let Some(s) = e[1].as_str() {
+                    v.push(s.to_string());
+                }
+            }
+        }
+    }
+    v
+}
+
+/// projection + normalised serialization of a single context (as context 0 of a one-context world)
+fn project_single(c: &Context) -> std::result::Result<(Json, Json, Vec<String>, String), String> {
+    let (text, inner) = serialize_ctx(c)?;
+    let names = names_for(&names_in(&inner));
+    let w = World { ctxs: vec![c.clone()], graphs: vec![vec![]], nodes: vec![vec![]], names: names.clone() };
+    let r = catch(AssertUnwindSafe(|| project_ctx(&w, c, &names, &inner)))?;
+    Ok((r, ser_norm(&inner), names, text))
+}
+
+/// from_str::<Context> with panics caught: (outcome, message, context)
+fn deserialize(text: &str) -> (String, String, Option<Context>) {
+    match catch(AssertUnwindSafe(|| serde_json::from_str::<Context>(text))) {
+        Ok(Ok(c)) => ("ok".into(), String::new(), Some(c)),
+        Ok(Err(e)) => ("err".into(), e.to_string().chars().take(160).collect(), None),
+        Err(p) => {
+            let loc = LAST_PANIC_LOC.lock().map(|g| g.clone()).unwrap_or_default();
+            ("panic".into(), format!("{loc} {}", p.chars().take(160).collect::<String>()), None)
+        }
+    }
+}
+
+fn eval_main(c: &Context) -> std::result::Result<Option<Vec<u8>>, String> {
+    if c.check_finalized().is_err() {
+        return Ok(None);
+    }
+    let r = catch(AssertUnwindSafe(|| -> Result<Option<Vec<u8>>> {
+        let has_custom = c.get_graphs().iter().any(|g| g.get_nodes().iter().any(|n| matches!(n.get_operation(), Operation::Custom(_))));
+        let cc = if has_custom { ciphercore_base::custom_ops::run_instantiation_pass(c.clone())?.get_context() } else { c.clone() };
+        let g = cc.get_main_graph()?;
+        // contexts with enormous node types (the size-limit cases) are not evaluated
+        fn big(t: &Type) -> bool {
+            match t {
+                Type::Scalar(_) => false,
+                Type::Array(sh, _) => sh.iter().fold(1u128, |a, b| a.saturating_mul(*b as u128)) > (1 << 16),
+                Type::Vector(n, e) => *n > (1 << 12) || big(e),
+                Type::Tuple(v) => v.iter().any(|x| big(x)),
+                Type::NamedTuple(v) => v.iter().any(|x| big(&x.1)),
+            }
+        }
+        for gr in cc.get_graphs() {
+            for n in gr.get_nodes() {
+                if n.get_type().map(|t| big(&t)).unwrap_or(true) {
+                    return Ok(None);
+                }
+            }
+        }
+        let ins = cc_conform::compile::zero_inputs(&g)?;
+        let v = ciphercore_base::evaluators::evaluate_simple_evaluator(g.clone(), ins, Some([7u8; 16]))?;
+        let t = g.get_output_node()?.get_type()?;
+        Ok(Some(serde_json::to_vec(&cc_conform::export::value_json(&v, &t, cc_conform::export::Num::Str)?).unwrap()))
+    }));
+    match r {
+        Ok(Ok(x)) => Ok(x),
+        Ok(Err(e)) => Err(format!("{e}").chars().take(120).collect()),
+        Err(p) => Err(format!("panic: {p}")),
+    }
+}
+
+/// the record of one base context: serialization, projection, and the round trip observed on the code
+fn base_record(id: usize, src: &str, c: &Context, catalogue: bool, with_pub: bool) -> Json {
+    let (pubp, ser, names, text) = match project_single(c) {
+        Ok(x) => x,
+        Err(e) => return json!({"id": id, "src": src, "failed": e}),
+    };
+    let text2 = serde_json::to_string(c).unwrap_or_default();
+    let (out, msg, c2) = deserialize(&text);
+    let mut rt = json!({"out": out, "msg": msg, "deep_equal": false, "same_text": false, "text_stable": text == text2,
+                        "eval": "skipped", "pub_equal": false, "ser_equal": false});
+    let mut pub1 = json!({});
+    if let Some(c2) = &c2 {
+        rt["deep_equal"] = json!(catch(AssertUnwindSafe(|| contexts_deep_equal(c, c2))).unwrap_or(false));
+        rt["same_text"] = json!(serde_json::to_string(c2).map(|t| t == text).unwrap_or(false));
+        if let Ok((p1, s1, _, _)) = project_single(c2) {
+            rt["pub_equal"] = json!(p1 == pubp);
+            rt["ser_equal"] = json!(s1 == ser);
+            pub1 = p1;
+        }
+        rt["eval"] = json!(match (eval_main(c), eval_main(c2)) {
+            (Ok(None), Ok(None)) => "skipped",
+            (Ok(a), Ok(b)) => if a == b { "equal" } else { "differs" },
+            (Err(_), Err(_)) => "both-error",
+            _ => "differs",
+        });
+    }
+    let nodes: usize = c.get_graphs().iter().map(|g| g.get_num_nodes() as usize).sum();
+    let predictable = spec_can_predict(&ser) && names.len() == UNIVERSE.len();
+    let mut r = json!({"id": id, "src": src, "text": text, "names": names, "nodes": nodes, "rt": rt,
+                       "catalogue": catalogue && predictable, "haspub": with_pub});
+    // (big contexts: the projections are compared by the harness' recorded flags only)
+    r["ser"] = if with_pub { ser } else { json!({}) };
+    r["pub"] = if with_pub { pubp } else { json!({}) };
+    r["pub1"] = if with_pub { pub1 } else { json!({}) };
+    r
+}
+
+fn rich_contexts(seed: u64) -> Vec<(String, Context)> {
+    let mut v: Vec<(String, Context)> = vec![];
+    let mut add = |name: &str, f: &dyn Fn() -> Result<Context>| match catch(AssertUnwindSafe(f)) {
+        Ok(Ok(c)) => v.push((name.to_string(), c)),
+        Ok(Err(e)) => eprintln!("rich context {name}: {e}"),
+        Err(p) => eprintln!("rich context {name}: panic {p}"),
+    };
+    // every annotation kind, names, calls; modelled operations only (catalogue applies)
+    add("annotations-all-kinds", &|| {
+        let c = create_context()?;
+        let g0 = c.create_graph()?;
+        let a = g0.input(t_i32())?;
+        let b = g0.input(t_i32())?;
+        let s = a.add(b.clone())?;
+        s.set_as_output()?;
+        a.set_name("a")?;
+        b.set_name("b")?;
+        for an in [NodeAnnotation::AssociativeOperation, NodeAnnotation::Private, NodeAnnotation::Send(0, 2), NodeAnnotation::PRFMultiplication,
+                   NodeAnnotation::PRFB2A, NodeAnnotation::PRFTruncate, NodeAnnotation::MpcCall] {
+            s.add_annotation(an)?;
+        }
+        a.add_annotation(NodeAnnotation::Send(1, 2))?;
+        for an in [GraphAnnotation::AssociativeOperation, GraphAnnotation::OneBitState, GraphAnnotation::SmallState] {
+            g0.add_annotation(an)?;
+        }
+        g0.finalize()?;
+        g0.set_name("c")?;
+        let g1 = c.create_graph()?;
+        let x = g1.input(t_i32())?;
+        let y = g1.input(t_i32())?;
+        let z = g1.call(g0.clone(), vec![x.clone(), y])?;
+        let t = g1.create_tuple(vec![z, x])?;
+        let u = t.tuple_get(0)?;
+        u.set_name("a")?;
+        u.set_as_output()?;
+        g1.finalize()?;
+        g1.set_name("d")?;
+        g1.set_as_main()?;
+        c.finalize()?;
+        Ok(c)
+    });
+    add("unfinalized-with-names", &|| {
+        let c = create_context()?;
+        let g0 = c.create_graph()?;
+        let a = g0.input(array_type(vec![2, 3], INT32))?;
+        let b = g0.input(array_type(vec![3], INT32))?;
+        a.multiply(b)?.set_name("b")?;
+        g0.set_name("a")?;
+        let _g1 = c.create_graph()?;
+        Ok(c)
+    });
+    // constants incl. 128-bit, structural operations (not modelled by the specification: round trip + bytes only)
+    add("constants-128bit", &|| {
+        let c = create_context()?;
+        let g = c.create_graph()?;
+        let k1 = g.constant(scalar_type(UINT128), Value::from_flattened_array(&[u128::MAX - 5], UINT128)?)?;
+        let k2 = g.constant(array_type(vec![2], INT128), Value::from_flattened_array(&[1u128 << 100, (i128::MIN + 3) as u128], INT128)?)?;
+        let k3 = g.constant(scalar_type(UINT128), Value::from_flattened_array(&[(1u128 << 64) + 5], UINT128)?)?;
+        let s = k1.add(k3)?;
+        let i = g.input(array_type(vec![2], INT128))?;
+        let m = i.multiply(k2)?;
+        let k4 = g.constant(t_bit(), Value::from_scalar(1, BIT)?)?;
+        g.create_tuple(vec![s, m, k4])?.set_as_output()?;
+        g.finalize()?.set_as_main()?;
+        c.finalize()?;
+        Ok(c)
+    });
+    add("custom-ops-comparisons", &|| {
+        use ciphercore_base::ops::comparisons::*;
+        let c = create_context()?;
+        let g = c.create_graph()?;
+        let t = array_type(vec![2, 8], BIT);
+        let a = g.input(t.clone())?;
+        let b = g.input(t)?;
+        let r1 = g.custom_op(CustomOperation::new(GreaterThan { signed_comparison: false }), vec![a.clone(), b.clone()])?;
+        let r2 = g.custom_op(CustomOperation::new(LessThan { signed_comparison: true }), vec![a.clone(), b.clone()])?;
+        let r3 = g.custom_op(CustomOperation::new(Equal {}), vec![a.clone(), b.clone()])?;
+        let r4 = g.custom_op(CustomOperation::new(GreaterThanEqualTo { signed_comparison: true }), vec![a.clone(), b.clone()])?;
+        let r5 = g.custom_op(CustomOperation::new(LessThanEqualTo { signed_comparison: false }), vec![a, b])?;
+        g.create_tuple(vec![r1, r2, r3, r4, r5])?.set_as_output()?;
+        g.finalize()?.set_as_main()?;
+        c.finalize()?;
+        Ok(c)
+    });
+    add("custom-ops-misc", &|| {
+        use ciphercore_base::ops::{adder::BinaryAdd, min_max::Max, multiplexer::Mux};
+        let c = create_context()?;
+        let g = c.create_graph()?;
+        let t = array_type(vec![8], BIT);
+        let a = g.input(t.clone())?;
+        let b = g.input(t)?;
+        let f = g.input(t_bit())?;
+        let r1 = g.custom_op(CustomOperation::new(BinaryAdd { overflow_bit: false }), vec![a.clone(), b.clone()])?;
+        let r2 = g.custom_op(CustomOperation::new(Max { signed_comparison: false }), vec![a.clone(), b.clone()])?;
+        let r3 = g.custom_op(CustomOperation::new(Mux {}), vec![f, a, b])?;
+        g.create_tuple(vec![r1, r2, r3])?.set_as_output()?;
+        g.finalize()?.set_as_main()?;
+        c.finalize()?;
+        Ok(c)
+    });
+    // compiler output (types supplied rather than inferred, annotations, PRF nodes)
+    for (name, st, op) in [("compiled-mul-i32", INT32, Operation::Multiply), ("compiled-mul-bit", BIT, Operation::Multiply), ("compiled-add-u64", UINT64, Operation::Add)] {
+        for mode in ["Simple", "Default"] {
+            let nm = format!("{name}-{mode}");
+            add(&nm, &|| {
+                let c = create_context()?;
+                let g = c.create_graph()?;
+                let a = g.input(array_type(vec![2], st))?;
+                let b = g.input(array_type(vec![2], st))?;
+                let r = g.add_node(vec![a, b], vec![], op.clone())?;
+                r.set_as_output()?;
+                g.finalize()?.set_as_main()?;
+                c.finalize()?;
+                let o = [cc_conform::compile::io_status(&json!(0)), cc_conform::compile::io_status(&json!(1))];
+                let outs = [cc_conform::compile::io_status(&json!(0))];
+                let r = cc_conform::compile::compile(&c, &o, &outs, mode)?;
+                Ok(r.mapped.get_context())
+            });
+        }
+    }
+    // final contexts of random histories (operations outside the model, partially built contexts)
+    let names: Vec<String> = ["a", "b", "c"].iter().map(|s| s.to_string()).collect();
+    for h in 0..6u64 {
+        let rng = StdRng::seed_from_u64(seed.wrapping_mul(7919).wrapping_add(h));
+        let mut d = Driver { rng, w: World::new(1, &names), finalized: Default::default() };
+        for _ in 0..(40 + 20 * h) {
+            let call = d.random_call(false, false);
+            apply(&mut d.w, &call);
+        }
+        v.push((format!("random-history-{h}"), d.w.ctxs[0].clone()));
+    }
+    v
+}
+
+/// bases <cfg.json|-> <paths.ndjson|-> <seed> <out.ndjson>: base contexts of the C12 cases with their
+/// observed round trip: states of the bounded C11 models (rebuilt from TLC's paths) + richer contexts.
+fn cmd_bases(args: &[String]) {
+    let seed: u64 = args[2].parse().unwrap();
+    let mut out = std::io::BufWriter::new(std::fs::File::create(&args[3]).unwrap());
+    let mut id = 0usize;
+    if args[0] != "-" {
+        let cfg: Json = serde_json::from_str(&std::fs::read_to_string(&args[0]).unwrap()).unwrap();
+        let names: Vec<String> = UNIVERSE.iter().map(|s| s.to_string()).collect();
+        for pj in read_ndjson(&args[1]) {
+            let f = &cfg["feats"][pj["f"].as_u64().unwrap() as usize - 1];
+            let calls: Vec<Call> = f["calls"].as_array().unwrap().iter().map(call_from).collect();
+            let path: Vec<usize> = pj["path"].as_array().unwrap().iter().map(|x| x.as_u64().unwrap() as usize).collect();
+            let w = build(f["nc"].as_u64().unwrap() as usize, &names, &calls, &path);
+            id += 1;
+            writeln!(out, "{}", base_record(id, &format!("model:{}", f["name"].as_str().unwrap()), &w.ctxs[0], true, true)).unwrap();
+        }
+    }
+    for (name, c) in rich_contexts(seed) {
+        id += 1;
+        let nodes: u64 = c.get_graphs().iter().map(|g| g.get_num_nodes()).sum();
+        writeln!(out, "{}", base_record(id, &name, &c, true, nodes <= 150)).unwrap();
+    }
+    println!("{}", json!({"bases": id}));
+}
+
+/// the real payload for a (possibly corrupted) normalised serial form: operations are taken from the
+/// base payload by position, ids/flags/tables from `ser`
+fn render_payload(ser: &Json, base_inner: &Json) -> Json {
+    let opt = |j: &Json| if j.as_i64() == Some(-1) { Json::Null } else { j.clone() };
+    let graphs: Vec<Json> = ser["graphs"]
+        .as_array()
+        .unwrap()
+        .iter()
+        .enumerate()
+        .map(|(gi, g)| {
+            let nodes: Vec<Json> = g["nodes"]
+                .as_array()
+                .unwrap()
+                .iter()
+                .enumerate()
+                .map(|(ni, n)| {
+                    let op = if n["op"]["o"] == "?" {
+                        json!({"NoSuchOperation": [1, 2]})
+                    } else {
+                        base_inner["graphs"][gi]["nodes"][ni]["operation"].clone()
+                    };
+                    json!({"node_dependencies": n["nd"], "graph_dependencies": n["gd"], "operation": op})
+                })
+                .collect();
+            json!({"finalized": g["finalized"], "nodes": nodes, "output_node": opt(&g["output_node"])})
+        })
+        .collect();
+    let nann = |a: &Json| -> Vec<Json> { a.as_array().unwrap().iter().map(|x| serde_json::to_value(nann_from(x.as_str().unwrap())).unwrap()).collect() };
+    let gann = |a: &Json| -> Vec<Json> { a.as_array().unwrap().iter().map(|x| serde_json::to_value(gann_from(x.as_str().unwrap())).unwrap()).collect() };
+    json!({
+        "finalized": ser["finalized"],
+        "graphs": graphs,
+        "main_graph": opt(&ser["main_graph"]),
+        "graphs_names": ser["graphs_names"].as_array().unwrap().iter().map(|e| json!([e["g"], e["nm"]])).collect::<Vec<_>>(),
+        "nodes_names": ser["nodes_names"].as_array().unwrap().iter().map(|e| json!([[e["g"], e["n"]], e["nm"]])).collect::<Vec<_>>(),
+        "nodes_annotations": ser["nodes_annotations"].as_array().unwrap().iter().map(|e| json!([[e["g"], e["n"]], nann(&e["an"])])).collect::<Vec<_>>(),
+        "graphs_annotations": ser["graphs_annotations"].as_array().unwrap().iter().map(|e| json!([e["g"], gann(&e["an"])])).collect::<Vec<_>>(),
+    })
+}
+
+/// outcome record of deserializing `text` (class + projection of an Ok result)
+fn outcome_record(text: &str) -> Json {
+    let mut r = classify_text(text);
+    let (out, msg, c) = deserialize(text);
+    r["out"] = json!(out);
+    r["msg"] = json!(msg);
+    r["rpub"] = json!({});
+    r["rser"] = json!({});
+    r["names"] = json!(UNIVERSE);
+    r["rproj_ok"] = json!(false);
+    if let Some(c) = c {
+        if let Ok((p, s, names, _)) = project_single(&c) {
+            r["rpub"] = p;
+            r["rser"] = s;
+            r["names"] = json!(names);
+            r["rproj_ok"] = json!(true);
+        }
+    }
+    // the specification's probe universe is a,b,c,d: with other names only well-formedness is judged
+    if r["names"].as_array().unwrap().len() != UNIVERSE.len() {
+        r["predictable"] = json!(false);
+    }
+    r
+}
+
+/// mutate <bases.ndjson> <cases.ndjson> <out.ndjson>: every catalogue corruption (generated by TLC from
+/// the specification's catalogue) rendered into the real JSON text of its base and deserialized.
+fn cmd_mutate(args: &[String]) {
+    let bases = read_ndjson(&args[0]);
+    let cases = read_ndjson(&args[1]);
+    let mut out = std::io::BufWriter::new(std::fs::File::create(&args[2]).unwrap());
+    let mut by: std::collections::BTreeMap<String, u64> = Default::default();
+    for case in cases {
+        let b = bases.iter().find(|b| b["id"] == case["base"]).expect("base of case");
+        let outer: Json = serde_json::from_str(b["text"].as_str().unwrap()).unwrap();
+        let inner: Json = serde_json::from_str(outer["data"].as_str().unwrap()).unwrap();
+        let payload = render_payload(&case["ser"], &inner).to_string();
+        let data = match case["env"]["json"].as_str().unwrap() {
+            "ok" => payload,
+            "garbage" => "x".to_string(),
+            "empty-object" => "{}".to_string(),
+            _ => payload[..payload.len() / 2].to_string(),
+        };
+        let text = json!({"version": case["env"]["version"], "data": data}).to_string();
+        let mut r = outcome_record(&text);
+        r["base"] = case["base"].clone();
+        r["kind"] = case["kind"].clone();
+        r["src"] = json!("catalogue");
+        r["text"] = json!(text);
+        *by.entry(format!("{}:{}", case["kind"].as_str().unwrap(), r["out"].as_str().unwrap())).or_default() += 1;
+        writeln!(out, "{}", r).unwrap();
+    }
+    println!("{}", json!({"by_kind_outcome": by}));
+}
+
+/// bytes <seed> <bases.ndjson> <out.ndjson> <nflips>: byte-level mutations of real serializations:
+/// truncation at every offset (smallest bases), seeded random byte flips, envelope/payload splices.
+fn cmd_bytes(args: &[String]) {
+    let seed: u64 = args[0].parse().unwrap();
+    let bases = read_ndjson(&args[1]);
+    let mut out = std::io::BufWriter::new(std::fs::File::create(&args[2]).unwrap());
+    let nflips: usize = args[3].parse().unwrap();
+    let mut rng = StdRng::seed_from_u64(seed ^ 0xC12);
+    let mut by: std::collections::BTreeMap<String, u64> = Default::default();
+    let mut emit = |kind: &str, base: &Json, text: String, out: &mut std::io::BufWriter<std::fs::File>| {
+        let mut r = outcome_record(&text);
+        r["base"] = base["id"].clone();
+        r["kind"] = json!(kind);
+        r["src"] = json!("bytes");
+        r["text"] = json!(text);
+        *by.entry(format!("{}:{}", kind, r["out"].as_str().unwrap())).or_default() += 1;
+        writeln!(out, "{}", r).unwrap();
+    };
+    let mut small: Vec<&Json> = bases.iter().filter(|b| b["text"].is_string() && b["nodes"].as_u64().unwrap_or(0) >= 2).collect();
+    small.sort_by_key(|b| b["text"].as_str().unwrap().len());
+    // truncation at every offset of the two smallest bases with at least two nodes
+    for b in small.iter().take(2) {
+        let t = b["text"].as_str().unwrap();
+        for cut in 0..t.len() {
+            if t.is_char_boundary(cut) {
+                emit("truncate", b, t[..cut].to_string(), &mut out);
+            }
+        }
+    }
+    // random byte flips / digit changes over a spread of bases
+    let pool: Vec<&Json> = bases.iter().filter(|b| b["text"].is_string() && b["text"].as_str().unwrap().len() < 20000).collect();
+    for k in 0..nflips {
+        let b = pool[rng.gen_range(0..pool.len())];
+        let mut bytes = b["text"].as_str().unwrap().as_bytes().to_vec();
+        let pos = rng.gen_range(0..bytes.len());
+        let kind = match k % 4 {
+            0 => {
+                bytes[pos] ^= 1 << rng.gen_range(0..7);
+                "bitflip"
+            }
+            1 => {
+                // change a digit (ids, versions, shapes)
+                let digits: Vec<usize> = (0..bytes.len()).filter(|i| bytes[*i].is_ascii_digit()).collect();
+                let p = digits[rng.gen_range(0..digits.len())];
+                bytes[p] = b'0' + rng.gen_range(0..10u8);
+                "digit"
+            }
+            2 => {
+                bytes.remove(pos);
+                "delete-byte"
+            }
+            _ => {
+                let c = b"{}[],:\"\\0n"[rng.gen_range(0..10)];
+                bytes.insert(pos, c);
+                "insert-byte"
+            }
+        };
+        if let Ok(t) = String::from_utf8(bytes) {
+            emit(kind, b, t, &mut out);
+        }
+    }
+    // splices
+    for i in 0..pool.len().min(12) {
+        let a = pool[i];
+        let b2 = pool[(i * 7 + 3) % pool.len()];
+        let ea: Json = serde_json::from_str(a["text"].as_str().unwrap()).unwrap();
+        let eb: Json = serde_json::from_str(b2["text"].as_str().unwrap()).unwrap();
+        let da = ea["data"].as_str().unwrap();
+        let db = eb["data"].as_str().unwrap();
+        emit("splice-envelope-in-payload", a, json!({"version": 2, "data": a["text"]}).to_string(), &mut out);
+        emit("splice-payload-as-envelope", a, da.to_string(), &mut out);
+        emit("splice-payload-doubled", a, json!({"version": 2, "data": format!("{da}{da}")}).to_string(), &mut out);
+        emit("splice-two-payload-halves", a, json!({"version": 2, "data": format!("{}{}", &da[..da.len() / 2], &db[db.len() / 2..])}).to_string(), &mut out);
+        emit("splice-data-not-string", a, json!({"version": 2, "data": serde_json::from_str::<Json>(da).unwrap()}).to_string(), &mut out);
+        emit("splice-version-string", a, json!({"version": "2", "data": da}).to_string(), &mut out);
+        emit("splice-missing-data", a, json!({"version": 2}).to_string(), &mut out);
+        emit("splice-value-payload", a, json!({"version": 2, "data": "{\"body\":{\"Bytes\":[1]}}"}).to_string(), &mut out);
+        emit("splice-extra-field", a, json!({"version": 2, "data": da, "extra": 1}).to_string(), &mut out);
+    }
+    println!("{}", json!({"by_kind_outcome": by}));
+}
+
+/// value-cases <out.ndjson>: malformed inputs of the Value decoder (data_values.rs), same envelope
+fn cmd_value_cases(args: &[String]) {
+    let mut out = std::io::BufWriter::new(std::fs::File::create(&args[0]).unwrap());
+    let good = serde_json::to_string(&Value::from_scalar(5, INT32).unwrap()).unwrap();
+    let env: Json = serde_json::from_str(&good).unwrap();
+    let payload = env["data"].as_str().unwrap_or("").to_string();
+    let mut texts: Vec<(String, String)> = vec![
+        ("value-valid".into(), good.clone()),
+        ("value-payload-garbage".into(), json!({"version": env["version"], "data": "x"}).to_string()),
+        ("value-payload-empty-object".into(), json!({"version": env["version"], "data": "{}"}).to_string()),
+        ("value-wrong-version".into(), json!({"version": 7, "data": payload}).to_string()),
+    ];
+    for cut in [1usize, payload.len() / 2, payload.len().saturating_sub(1)] {
+        texts.push(("value-payload-truncated".into(), json!({"version": env["version"], "data": &payload[..cut.min(payload.len())]}).to_string()));
+    }
+    for (kind, text) in texts {
+        let o = match catch(AssertUnwindSafe(|| serde_json::from_str::<Value>(&text))) {
+            Ok(Ok(_)) => ("ok", String::new()),
+            Ok(Err(e)) => ("err", e.to_string()),
+            Err(p) => ("panic", format!("{} {}", LAST_PANIC_LOC.lock().map(|g| g.clone()).unwrap_or_default(), p)),
+        };
+        writeln!(out, "{}", json!({"base": 0, "kind": kind, "src": "value", "text": text, "out": o.0, "msg": o.1.chars().take(200).collect::<String>(),
+                                    "expect": if kind == "value-valid" { "ok" } else { "err" }})).unwrap();
+    }
+}
+
+static LAST_PANIC_LOC: std::sync::Mutex<String> = std::sync::Mutex::new(String::new());
+
+/// outcome <in.ndjson> <out.ndjson>: re-executes recorded texts (replay of a violation)
+fn cmd_outcome(args: &[String]) {
+    let mut out = std::io::BufWriter::new(std::fs::File::create(&args[1]).unwrap());
+    for rec in read_ndjson(&args[0]) {
+        let text = rec["text"].as_str().unwrap();
+        let mut r = if rec["src"] == "value" {
+            let o = match catch(AssertUnwindSafe(|| serde_json::from_str::<Value>(text))) {
+                Ok(Ok(_)) => ("ok", String::new()),
+                Ok(Err(e)) => ("err", e.to_string()),
+                Err(p) => ("panic", format!("{} {}", LAST_PANIC_LOC.lock().map(|g| g.clone()).unwrap_or_default(), p)),
+            };
+            json!({"out": o.0, "msg": o.1, "expect": rec["expect"]})
+        } else {
+            outcome_record(text)
+        };
+        for k in ["base", "kind", "src", "text"] {
+            r[k] = rec[k].clone();
+        }
+        writeln!(out, "{}", r).unwrap();
+    }
+}
+
 fn main() {
     quiet_panics();
+    // panics of the library are data: remember where the last one happened (file:line)
+    std::panic::set_hook(Box::new(|info| {
+        if let Some(l) = info.location() {
+            let f = l.file().rsplit('/').next().unwrap_or("").to_string();
+            if let Ok(mut g) = LAST_PANIC_LOC.lock() {
+                *g = format!("{}:{}", f, l.line());
+            }
+        }
+    }));
     let args: Vec<String> = std::env::args().collect();
     if args.len() < 2 {
         eprintln!("usage: ctxapi replay|random|sercases|mutate|bytes ...");
@@ -1011,10 +1687,14 @@ fn main() {
     match args[1].as_str() {
         "replay" => cmd_replay(rest),
         "random" => cmd_random(rest),
+        "bases" => cmd_bases(rest),
+        "mutate" => cmd_mutate(rest),
+        "bytes" => cmd_bytes(rest),
+        "value-cases" => cmd_value_cases(rest),
+        "outcome" => cmd_outcome(rest),
         c => {
             eprintln!("unknown command {c}");
             std::process::exit(2);
         }
     }
-    let _ = (CustomOperation::new(ciphercore_base::ops::comparisons::Equal {}),);
 }
